@@ -1,6 +1,7 @@
 """C07 rounding to a precision: contexts are honoured (PROV-CTX), with_precision_round forwards its
 mode and converts precision to scale through checked arithmetic only (R-PANIC on its own body)."""
 import re
+from facts import cres, cdef
 from rules import prov, provrules as R, signsticky as S
 from rules.panic_clause import panic_clause
 from rules import scale
@@ -72,6 +73,36 @@ def run(ctx):
             rep.violation('R-SCALE', key, msgs[0][:400], wpf.where())
         else:
             rep.undecided('R-SCALE', key, (msgs or ['not decided'])[0][:200], wpf.where())
+    # ROUND-ONCE: between the precision-rounding entry points and the table-checked routine with_scale_round no other,
+    # mode-blind shortening of the operand may happen (truncate-then-round is double rounding: the dropped tail can no
+    # longer break a tie or push a directed mode)
+    TRUNC = re.compile(r'BigDecimal::(with_scale|set_scale|take_and_scale|with_prec|round|normalized_to)$|to_owned_with_scale$|BigDecimal as std::ops::Div|impl_division$')
+    cg = F.callgraph()
+    for ent in wpr + fns:
+        seen_, st_ = set(), [ent.name]
+        while st_:
+            x = st_.pop()
+            if x in seen_ or x not in cg or x == 'BigDecimal::with_scale_round':
+                continue
+            if re.search(r'^arithmetic::addition::|extend_scale_to$|ops::(Add|Sub)[<> ]|ops::(Add|Sub)Assign', x):
+                continue        # the exact-sum layer of add_refs*: upward re-scaling only, typed exact by R-SCALE
+            seen_.add(x)
+            st_.extend(cg[x])
+        hits = []
+        for nme in sorted(seen_):
+            g = F.fns[nme]
+            if re.search(r'^arithmetic::addition::|impl_ops_add|impl_ops_sub|ops::Add|ops::Sub|AddAssign|SubAssign', nme):
+                continue        # the exact sum of add_refs*: typed by R-SCALE (rounded-add)
+            for bid, t in g.calls():
+                r0 = cres(t) or cdef(t) or ''
+                if TRUNC.search(r0) and nme != 'BigDecimal::with_precision_round::never':
+                    hits.append((g, t, r0))
+        key = ent.key + ':rounds-once'
+        if hits:
+            g, t, r0 = hits[0]
+            rep.violation('ROUND-ONCE', key, '%s shortens the operand with %s before the requested rounding: digits dropped there can no longer decide a tie or a directed mode (double rounding)' % (g.name.split('::')[-1], r0.split('::')[-1]), g.where(t['loc']['line']))
+        else:
+            rep.ok('ROUND-ONCE', key, '%d bodies between the entry point and with_scale_round: no truncating rescale, no other rounding' % len(seen_), ent.where())
     # with_prec's tie rule is fixed by its specification (ties away from zero): it must not come from the
     # configurable default mode, and a mode constant it hands to a rounding routine must be HalfUp
     wp = F.fns.get('BigDecimal::with_prec')
